@@ -157,13 +157,15 @@ impl MoveGen {
 
     /// Never, ever, iterate this move
     pub fn remove_move(&mut self, chess_move: ChessMove) -> bool {
+        // a pawn may own two entries: its ordinary moves and an en-passant capture
+        let mut found = false;
         for x in 0..self.moves.len() {
             if self.moves[x].src == chess_move.source {
                 self.moves[x].moves -= chess_move.dest;
-                return true;
+                found = true;
             }
         }
-        false
+        found
     }
 
     pub fn set_mask(&mut self, mask: BitBoard) {
